@@ -64,6 +64,31 @@ def records():
                 name = lambda L, A: 'CDEFGAB'[L] + ('+' * A if A > 0 else '-' * (-A))  # noqa
                 p, q = AgnosticPitch(name(l, a), o), AgnosticPitch(name(l2, a2), o2)
                 recs.append({'op': 'compare', 'l': l, 'a': a, 'o': o, 'l2': l2, 'a2': a2, 'o2': o2, 'lt': bool(p < q), 'gt': bool(p > q)})
+    # the graphic staff position of every pitch under every clef, and the algebra of PositionInStaff objects
+    from kernpy.core import gkern
+    from kernpy.core.pitch_models import HumdrumPitchImporter
+    for k, (sign, line) in pitchrec.CLEFS.items():
+        for mark in ('', 'v', '^^'):
+            clef = gkern.ClefFactory.create_clef(f'*clef{sign}{mark}{line}')
+            for l in range(7):
+                for o in range(0, 9):
+                    a = r.randrange(-2, 3)
+                    by, other = r.randrange(-9, 10), r.randrange(-20, 40)
+
+                    def probe():
+                        pitch = HumdrumPitchImporter().import_pitch(pitchrec.spell(l, a, o))
+                        pos = gkern.Staff().position_in_staff(clef=clef, pitch=pitch)
+                        txt = gkern.GKernExporter(clef).export(gkern.Staff(), pitch)
+                        back = (gkern.PositionInStaff.from_line(pos.line()) if pos.is_line() else gkern.PositionInStaff.from_space(pos.space()))
+                        return {'ls': int(pos.line_space), 'txt': cps(txt), 'line': int(pos.line()), 'space': int(pos.space()), 'isline': bool(pos.is_line()),
+                                'back': int(back.line_space), 'moved': int(pos.move(by).line_space), 'above': int(pos.position_above().line_space),
+                                'below': int(pos.position_below().line_space), 'lt': bool(pos < gkern.PositionInStaff(other))}
+                    ok, res = pitchrec.safe(probe)
+                    rec = {'op': 'staffpos', 'k': k, 'l': l, 'a': a, 'o': o, 'by': by, 'other': other, 'ok': ok,
+                           'ls': 0, 'txt': [], 'line': 0, 'space': 0, 'isline': False, 'back': 0, 'moved': 0, 'above': 0, 'below': 0, 'lt': False}
+                    if ok:
+                        rec.update(res)
+                    recs.append(rec)
     return recs
 
 
